@@ -40,6 +40,13 @@ def shapes(r, tier):
         for nout in (0, 1, 2, 3):
             for wit in ("none", "some"):
                 out.append(gen.gen_tx(r, nin=nin, nout=nout, witness=wit, lens=[0, 1, 25, 75, 76]))
+    # script lengths on both sides of the one-byte length prefix, in inputs and in every output position
+    for n_ in (252, 253, 254, 255, 256, 0x10000):
+        d = gen.gen_tx(r, nin=2, nout=2, witness="none", lens=[n_])
+        out.append(d)
+        d = gen.gen_tx(r, nin=2, nout=2, witness="none", lens=[1])
+        d["vout"][1]["script"] = gen.rbytes(r, n_)
+        out.append(d)
     for _ in range(10 if tier == "quick" else 300):
         d = gen.gen_tx(r, lens=[0, 1, 25, 107])
         if len(d["vin"]) <= 4 and len(d["vout"]) <= 4:
